@@ -114,6 +114,30 @@ def main():
         if not ok:
             return 1
         return 0
+    if sys.argv[1] == 'import-neutral':
+        name, i, src = sys.argv[2], sys.argv[3], sys.argv[4]
+        sid = 'neutral-%s-%s' % (name, i)
+        d = os.path.join(SEEDED, sid)
+        os.makedirs(d, exist_ok=True)
+        shutil.copy(os.path.join(src, 'patch%s.diff' % i), os.path.join(d, 'patch.diff'))
+        shutil.copy(os.path.join(src, 'meta%s.md' % i), os.path.join(d, 'agent_notes.md'))
+        wt = tempfile.mkdtemp(prefix='taverif-seedwt-')
+        os.rmdir(wt)
+        try:
+            rc, out = sh('git -C %s worktree add -q --detach %s HEAD' % (REPO, wt))
+            rc1, out1 = sh('git apply %s/patch.diff' % d, cwd=wt)
+            rc2, out2 = sh('CARGO_NET_OFFLINE=true CARGO_TARGET_DIR=%s/target cargo test --offline --workspace --no-fail-fast' % wt, cwd=wt)
+            ok = rc1 == 0 and rc2 == 0 and '136 passed' in out2 and 'test result: FAILED' not in out2
+        finally:
+            sh('git -C %s worktree remove --force %s' % (REPO, wt))
+            shutil.rmtree(wt, ignore_errors=True)
+        meta = {'id': sid, 'kind': 'neutral', 'breaks_property': None, 'confirmed': bool(ok),
+                'what': open(os.path.join(d, 'agent_notes.md')).read()[:1200],
+                'expected': 'no check reports a VIOLATION (exit 0, or exit 2 = undecided); the 136 unit tests pass with the change',
+                'what_was_run': 'scratch worktree: git apply patch.diff; cargo test --offline --workspace'}
+        json.dump(meta, open(os.path.join(d, 'meta.json'), 'w'), indent=1)
+        print(sid, 'confirmed' if ok else 'NOT CONFIRMED')
+        return 0
     if sys.argv[1] == 'reconfirm':
         for sid in sys.argv[2:]:
             d = os.path.join(SEEDED, sid)
@@ -140,6 +164,8 @@ def main():
             meta['errors'] = sorted(p for p, r in v.items() if r['rc'] not in (0, 1, 2) or (r['rc'] == 1 and not any(l.startswith('VIOLATION') for l in r['lines'])))
             meta['undecided'] = sorted(p for p, r in v.items() if r['rc'] == 2)
             meta['target_detected'] = meta['breaks_property'] in meta['detected_by']
+            if meta.get('kind') == 'neutral':
+                meta['false_alarm'] = bool(meta['detected_by'])
             json.dump(meta, open(mp, 'w'), indent=1)
             print(sid, 'target', meta['breaks_property'], 'detected_by', meta['detected_by'], 'undecided', meta['undecided'])
         return 0
